@@ -34,6 +34,8 @@ impl<T> SendBuffer<T> {
     /// frame is sent, the previous frame will be overwritten.
     pub fn write(&self, frame: T) {
         self.tx_waker.wake_by(Signals::TRANSPORT);
+        #[cfg(genmeta_gm_quic_verif)]
+        qbase::verif::sched_point("SendBuffer::write:between-wake-and-store");
         *self.item.lock().unwrap() = Some(frame);
     }
 }
